@@ -128,6 +128,10 @@ def _plain_labels(ptype, tlen, raw, n):
     """PLAIN decode of a dictionary page (numbers as little-endian bit patterns, byte strings as bytes) or None"""
     width = {1: 4, 2: 8, 3: 12, 4: 4, 5: 8}.get(ptype)
     out, at = [], 0
+    if ptype == 0:       # BOOLEAN: bit-packed, least significant bit first
+        if len(raw) != (n + 7) // 8:
+            return None
+        return [(raw[i // 8] >> (i % 8)) & 1 for i in range(n)]
     for _ in range(n):
         if width:
             out.append(int.from_bytes(raw[at:at + width], "little"))
@@ -161,9 +165,11 @@ def chunk_model_check(fm, data, leaves, rgs, fn=None):
     for rg, rgcells in zip(fmd.row_groups, rgs):
         for col, l, cells in zip(rg.columns, leaves, rgcells):
             m = col.meta_data
-            if l["type"] == 0 or not cells:
+            if not cells:
                 continue
             pages, start, end = pqfile.chunk_pages(data, m)
+            if l["type"] == 0 and not any(p["type"] == 2 for p in pages):
+                continue      # BOOLEAN values (bit-packed PLAIN / RLE) are not in the writer chunk model; boolean CATEGORIES are
             codec = m.codec or 0
             v2 = any(p["type"] == 3 for p in pages)
             dps = [p for p in pages if p["type"] in (0, 3)]
